@@ -209,6 +209,8 @@ type c06Env struct {
 	maxConc      int64 // acknowledged MAX_CONCURRENT_STREAMS (-1 = none)
 	cInitWin     int64 // advertised by the client
 	cConnWin     int64 // the peer's connection-level send window towards the client
+	cSent        int64 // flow-controlled bytes the peer has sent (data + padding)
+	cCredited    int64 // connection-level WINDOW_UPDATE increments received after the preface
 	ackSeen      int
 	acksSent     int
 	pingSeq      uint64
@@ -411,6 +413,9 @@ func (e *c06Env) handle(f c06Frame) {
 	case xhttp2.FrameWindowUpdate:
 		if f.id == 0 {
 			e.cConnWin += int64(f.inc)
+			if e.cSent > 0 { // the preface's WINDOW_UPDATE raises the window, it returns nothing
+				e.cCredited += int64(f.inc)
+			}
 		} else if st := e.streams[f.id]; st != nil {
 			st.cwin += int64(f.inc)
 		}
@@ -624,6 +629,17 @@ func c06StreamOf(f string) int {
 		n = n*10 + int(c-'0')
 	}
 	return n
+}
+
+// creditOwed: connection-level credit the client still owes the peer at quiescence, beyond what
+// sits unread in response bodies (by the harness's own books). flow.go's refresh rule keeps it
+// below inflowMinRefresh.
+func (e *c06Env) creditOwed() int64 {
+	owed := e.cSent - e.cCredited
+	for _, st := range e.streams {
+		owed -= st.buffered
+	}
+	return owed
 }
 
 // ---- caller operations
@@ -977,6 +993,7 @@ func (e *c06Env) peerData(id uint32, n, pad int, end bool) string {
 		e.fr.WriteData(id, end, c06Zeros[:n])
 	}
 	e.cConnWin -= int64(n + pad)
+	e.cSent += int64(n + pad)
 	forgot := false
 	if st := e.streams[id]; st != nil {
 		st.cwin -= int64(n + pad)
